@@ -9,7 +9,7 @@ from .backends import Oracle, as_declared
 
 PROCS = [('naive', 'grounded', 'grounded'), ('naive', 'complete', 'complete'), ('naive', 'stable', 'stable'), ('naive', 'twoval_channel:Simple', 'models'),
          ('hybrid', 'grounded', 'grounded'), ('biodivine', 'complete', 'complete'), ('hybrid', 'stable', 'stable'), ('naive', 'heu_a', 'stable'),
-         ('naive', 'nogood:MinModMinPathsMaxVarImp', 'stable')]
+         ('naive', 'nogood:MinModMinPathsMaxVarImp', 'stable'), ('biodivine', 'stmrew2', 'stable'), ('hybrid', 'stmrew', 'stable'), ('hybrid_noopt', 'stmrew2', 'stable')]
 RENAME_POOL = ['a', 'b', 'c', 'd', 'e', 'z', 'y', 'x10', 'x9', 'x2', 'X', 'B', 'and', 'or', 'neg', 'imp', 'iff', 'xor', 'ac', 's', 'c1', 'cv', 'v', 'f', '10', '9', '007',
                'st 1', 'q,1', 'u.1', 'aa', 'ab', 'Aa', 'a1', 'a10', 'a2', 'true', 'false', 'not', 'a,b', 'b,c']
 
@@ -27,6 +27,8 @@ def presentations(rng, names, acs, count):
         mp = {n: n for n in names}
         if i % 2 == 1:
             pool = [x for x in RENAME_POOL]; rng.shuffle(pool)
+            if i % 4 == 3:      # reserved-looking words first
+                pool = [x for x in ('true', 'false', 'not', 'and', 'c', 'v', 'f') if x in pool] + [x for x in pool if x not in ('true', 'false', 'not', 'and', 'c', 'v', 'f')]
             mp = {n: pool[j] for j, n in enumerate(names)}
         rn = [mp[n] for n in names]
         racs = {mp[n]: rename(acs[n], mp) for n in names}
